@@ -1,5 +1,267 @@
+// C15 -- a parser object is immutable: calls are independent and thread-safe (DESIGN 6.6)
 #include "props_common.hpp"
-namespace sim {
-extern const Property kPropsC[] = { { "", nullptr, nullptr } };
-extern const int kPropsCCount = 0;
+
+#include <algorithm>
+
+namespace sim
+{
+
+static const ExecFlags kFlags{};
+
+// everything a caller can observe of one call (and what the simulator observed on its seams)
+static uint64_t fingerprint(const OpResult& o, std::string* text = nullptr)
+{
+    uint64_t h = 0x15151515;
+    auto mixv = [&](uint64_t v) { h ^= v + 0x9e3779b97f4a7c15ull + (h << 6) + (h >> 2); };
+    mixv(o.out.has_value); mixv(o.out.digest); mixv(uint64_t(o.out.exc));
+    h = fnv(o.rec.wrote.data(), o.rec.wrote.size(), h);
+    h = fnv(o.out.oss_text.data(), o.out.oss_text.size(), h);
+    mixv(o.out.stream_bad);
+    for (const auto& r : o.rec.reds) { mixv(uint64_t(r.rule)); mixv(r.digest); mixv(uint64_t(r.ctx)); }
+    for (const auto& t : o.rec.termfs) { mixv(uint64_t(t.term)); mixv(uint64_t(t.off)); mixv(uint64_t(t.len)); }
+    for (const auto& l : o.rec.lexes) { mixv(uint64_t(l.pos)); mixv(uint64_t(l.idx)); mixv(uint64_t(l.len)); mixv(uint64_t(l.line)); mixv(uint64_t(l.col)); }
+    mixv(o.out.ctx_acc); mixv(uint64_t(o.out.ctx_touches));
+    mixv(uint64_t(o.rec.n_new)); mixv(uint64_t(o.rec.n_copy)); mixv(uint64_t(o.rec.n_move)); mixv(uint64_t(o.rec.n_del)); mixv(uint64_t(o.rec.live_after));
+    mixv(uint64_t(o.rec.steps)); mixv(uint64_t(o.rec.rds)); mixv(uint64_t(o.rec.oob_read + o.rec.oob_iter + o.rec.bounds_bad));
+    if (text)
+    {
+        *text = std::string("value=") + (o.out.has_value ? "yes" : "no") + " exc=" + std::to_string(o.out.exc) + " result=" + printable(o.out.text, 120) +
+                " wrote='" + printable(o.out.oss_text.empty() ? o.rec.wrote : o.out.oss_text, 160) + "' functor_calls=" + std::to_string(o.rec.reds.size()) +
+                " ctx=" + std::to_string(o.out.ctx_touches) + " steps=" + std::to_string(o.rec.steps);
+    }
+    return h;
 }
+
+static PlanOp gen_any_op(Rng& rng, bool thorough)
+{
+    std::vector<std::string> pk = keys_for({ "G1", "G2", "G3", "G4", "G5", "G6", "G7", "G8", "G9", "T1" });
+    std::vector<std::string> rk = regex_keys();
+    uint64_t k = rng.below(100);
+    PlanOp op;
+    if (k < 8 && !rk.empty())
+    {
+        op.parser = rng.pick(rk); op.api = API_MATCH; op.use_raw = true;
+        auto re = ref::parse_regex(*regex_pattern(op.parser));
+        op.raw = sample_regex(*re, rng, 5);
+        if (rng.chance(1, 2)) add_byte_faults(op, rng, 1, nullptr);
+        op.buffer = rng.pick(std::vector<int>{ BUF_SIM, BUF_STRING, BUF_VIEW, BUF_CSTRING });
+        op.stream = rng.pick(std::vector<int>{ STR_NONE, STR_SIM, STR_OSS });
+        op.verbose = rng.chance(1, 3);
+        return op;
+    }
+    std::string key = rng.pick(pk);
+    const ref::Model* m = model_for(grammar_of(key));
+    if (k < 14)
+    {
+        op.parser = key; op.api = API_DIAG; op.use_raw = true; op.stream = rng.chance(1, 2) ? STR_OSS : STR_SIM;
+        op.heap = rng.chance(1, 3);
+        return op;
+    }
+    OpShape sh;
+    sh.budget = thorough ? 20 : 10;
+    sh.ws_rich = rng.chance(1, 4);
+    sh.buffers = { BUF_SIM, BUF_SIM, BUF_STRING, BUF_VIEW, BUF_CSTRING };
+    sh.streams = { STR_SIM, STR_SIM, STR_NONE, STR_OSS };
+    sh.p_verbose = 35;
+    sh.allow_heap = true;
+    op = make_sentence_op(rng, key, sh);
+    uint64_t f = rng.below(100);
+    if (f < 40) {}
+    else if (f < 75) add_token_faults(op, rng, rng.range(1, 2), *m);
+    else add_byte_faults(op, rng, rng.range(1, 2), m);
+    if (rng.chance(2, 5)) op.api = API_CONTEXT_PARSE;
+    if (m->g.custom_lexer && rng.chance(1, 5)) op.lex_fail_call = int64_t(rng.below(op.toks.size() + 1));
+    return op;
+}
+
+static Plan gen_c15(uint64_t seed, int64_t index, bool thorough)
+{
+    Rng rng(hash_seed(seed, "C15", index));
+    Plan p;
+    p.seed = seed; p.index = index; p.property = "C15";
+    int nt = rng.range(2, 4);
+    uint64_t k = rng.below(100);
+    // swarm: switch density per run
+    int density;     // percent of switch points that switch
+    if (k < 12) { p.mode = "history"; density = 0; nt = rng.range(1, 3); }
+    else if (k < 40) { p.mode = "sparse"; density = rng.range(1, 5); }
+    else if (k < 80) { p.mode = "medium"; density = rng.range(6, 25); }
+    else { p.mode = "dense"; density = rng.range(26, 60); }
+    bool same_parser = rng.chance(1, 2);      // bias: all tasks hammer one parser object
+    std::string shared_key;
+    for (int t = 0; t < nt; ++t)
+    {
+        PlanTask pt;
+        int nops = rng.range(1, p.mode == "history" ? 4 : 3);
+        for (int i = 0; i < nops; ++i)
+        {
+            PlanOp op = gen_any_op(rng, thorough);
+            if (same_parser && op.api != API_MATCH)
+            {
+                if (shared_key.empty()) shared_key = op.parser;
+                else if (grammar_of(shared_key) != grammar_of(op.parser))
+                {
+                    // regenerate on the shared parser: keep trying a few times
+                    for (int tries = 0; tries < 8 && op.parser != shared_key; ++tries) op = gen_any_op(rng, thorough);
+                }
+            }
+            pt.ops.push_back(op);
+        }
+        p.tasks.push_back(pt);
+    }
+    int len = thorough ? 2048 : 512;
+    if (density > 0)
+        for (int i = 0; i < len; ++i)
+            p.schedule.push_back(rng.chance(density, 100) ? uint8_t(rng.range(1, 3)) : uint8_t(0));
+    else
+        p.schedule.push_back(uint8_t(rng.below(4)));   // which task starts
+    return p;
+}
+
+// fixed canary calls: executed solo before and after every case; must keep giving identical outcomes
+static Plan canary_plan()
+{
+    Plan p;
+    p.seed = 0; p.index = 0; p.property = "C15"; p.mode = "canary";
+    Rng rng(0xCA9A51);
+    const char* keys[] = { "G1.node", "G2.node", "G5.node", "G6.node", "G7.pnode", "T1.node" };
+    PlanTask t;
+    for (const char* k : keys)
+    {
+        if (!find_fleet(k)) continue;
+        const ref::Model* m = model_for(grammar_of(k));
+        for (int variant = 0; variant < 2; ++variant)
+        {
+            OpShape sh; sh.budget = 8; sh.p_skip_ws_off = 0; sh.p_skip_nl_off = 0;
+            sh.buffers = { variant ? BUF_STRING : BUF_SIM }; sh.streams = { STR_SIM };
+            PlanOp op = make_sentence_op(rng, k, sh);
+            op.verbose = variant == 1;
+            if (variant == 0) add_token_faults(op, rng, 2, *m);      // failing / recovering call with a message
+            if (variant == 1) op.api = API_CONTEXT_PARSE;
+            t.ops.push_back(op);
+        }
+    }
+    if (find_fleet("R1"))
+    {
+        PlanOp op; op.parser = "R1"; op.api = API_MATCH; op.use_raw = true; op.raw = "abbx"; op.stream = STR_SIM; op.buffer = BUF_SIM;
+        t.ops.push_back(op);
+        op.raw = "abbc"; op.verbose = true;
+        t.ops.push_back(op);
+    }
+    p.tasks.push_back(t);
+    return p;
+}
+
+static std::vector<uint64_t> run_canary(CaseCtx& cx, std::vector<std::string>* texts = nullptr)
+{
+    static const Plan cp = canary_plan();
+    RunResult rr = exec_plan(cp, kFlags);
+    cx.hashes.push_back(rr.hash);
+    std::vector<uint64_t> f;
+    for (const OpResult& o : rr.tasks[0])
+    {
+        std::string t;
+        f.push_back(fingerprint(o, texts ? &t : nullptr));
+        if (texts) texts->push_back(t);
+    }
+    if (cx.st) cx.st->add("canary_calls", int64_t(f.size()));
+    return f;
+}
+
+static std::vector<Violation> case_c15(const Plan& p, CaseCtx& cx)
+{
+    std::vector<Violation> vs;
+    std::vector<std::string> ctext0;
+    std::vector<uint64_t> canary0 = run_canary(cx, &ctext0);
+
+    // solo runs of every op (each alone, single task, no switching), before and after the interleaved run
+    auto solo = [&](std::vector<std::vector<uint64_t>>& fps, std::vector<std::vector<std::string>>& txt)
+    {
+        for (size_t t = 0; t < p.tasks.size(); ++t)
+        {
+            fps.emplace_back(); txt.emplace_back();
+            for (size_t i = 0; i < p.tasks[t].ops.size(); ++i)
+            {
+                Plan s;
+                s.seed = p.seed; s.index = p.index; s.property = "C15"; s.mode = "solo";
+                s.tasks.emplace_back(); s.tasks[0].ops.push_back(p.tasks[t].ops[i]);
+                RunResult r = exec_plan(s, kFlags);
+                cx.hashes.push_back(r.hash);
+                std::string tx;
+                fps.back().push_back(fingerprint(r.tasks[0][0], &tx));
+                txt.back().push_back(tx);
+                if (cx.st) { ++cx.st->runs; cx.st->add("solo_runs"); }
+            }
+        }
+    };
+    std::vector<std::vector<uint64_t>> before, after;
+    std::vector<std::vector<std::string>> tb, ta;
+    solo(before, tb);
+
+    RunResult rr = exec_plan(p, kFlags);
+    account(cx, p, rr, rr.overlap > 0 || (p.mode == "history" && p.tasks.size() >= 1));
+    if (cx.st)
+    {
+        cx.st->add("mode." + p.mode);
+        cx.st->add("tasks", int64_t(p.tasks.size()));
+    }
+
+    solo(after, ta);
+    std::vector<std::string> ctext1;
+    std::vector<uint64_t> canary1 = run_canary(cx, &ctext1);
+
+    for (size_t t = 0; t < p.tasks.size(); ++t)
+        for (size_t i = 0; i < p.tasks[t].ops.size(); ++i)
+        {
+            const OpResult& o = rr.tasks[t][i];
+            std::string tx;
+            uint64_t f = fingerprint(o, &tx);
+            std::string who = "task " + std::to_string(t) + " op " + std::to_string(i) + " (" + o.op.parser + ", api " + std::to_string(o.op.api) + ", input '" + printable(o.rend.bytes, 80) + "')";
+            // 1. isolation: the call under interleaving == the same call alone
+            if (f != before[t][i])
+            {
+                vs.push_back(make_violation("C15", p.tasks.size() > 1 && rr.switches > 0 ? "result_differs_under_interleaving" : "result_depends_on_earlier_calls",
+                    who + ": alone {" + tb[t][i] + "} but among the other calls {" + tx + "}", p));
+                return vs;
+            }
+            if (before[t][i] != after[t][i])
+            {
+                vs.push_back(make_violation("C15", "result_depends_on_earlier_calls", who + ": alone before {" + tb[t][i] + "}, alone afterwards {" + ta[t][i] + "}", p));
+                return vs;
+            }
+            // 3. object image
+            if (o.out.image_before != o.out.image_after)
+            {
+                vs.push_back(make_violation("C15", "parser_object_modified", who + ": the bytes of the parser object changed during the call", p));
+                return vs;
+            }
+            // 4. context confinement
+            int64_t ctx_reds = 0; for (const auto& r : o.rec.reds) if (r.ctx == 2) ++ctx_reds;
+            if (o.rec.ctx_foreign || o.rec.ctx_touches != ctx_reds || (o.op.api == API_CONTEXT_PARSE && o.out.ctx_touches != int(ctx_reds)))
+            {
+                vs.push_back(make_violation("C15", "context_not_confined", who + ": a contextual functor received another call's context, or the context was touched " +
+                    std::to_string(o.rec.ctx_touches) + "x for " + std::to_string(ctx_reds) + " contextual reductions", p));
+                return vs;
+            }
+            if (cx.st && o.op.api == API_CONTEXT_PARSE) cx.st->add("contexts_checked");
+            if (cx.st && o.op.heap) cx.st->add("heap_instance_images_checked");
+        }
+    // 2. canaries
+    for (size_t i = 0; i < canary0.size() && i < canary1.size(); ++i)
+        if (canary0[i] != canary1[i])
+        {
+            vs.push_back(make_violation("C15", "state_leaks_into_later_calls", "fixed canary call #" + std::to_string(i) + " gave {" + ctext0[i] + "} before this history and {" + ctext1[i] + "} after it", p));
+            return vs;
+        }
+    // 5. happens-before race detection under the deterministic schedule (tsan flavour)
+    if (rr.tsan_reports > 0)
+        vs.push_back(make_violation("C15", "data_race", std::to_string(rr.tsan_reports) + " ThreadSanitizer report(s) during this run: two calls touched the same memory, at least one writing, with nothing ordering them", p));
+    return vs;
+}
+
+extern const Property kPropsC[] = {
+    { "C15", &gen_c15, &case_c15 },
+};
+extern const int kPropsCCount = 1;
+
+}  // namespace sim
